@@ -350,7 +350,7 @@ func randWatchScenario(r *rand.Rand) vt.Case {
 	return vt.Case{"watch": true, "cfg0": "p1", "env0": envValues[r.Intn(len(envValues))], "steps": steps}
 }
 
-const stallDeadline = 90 * time.Second // stall detection only: a settle normally takes two apply cycles
+const stallDeadline = 30 * time.Second // stall detection only: a settle normally takes two apply cycles
 
 // runWatch runs one scenario against Reloader.Watch with the real fsnotify watcher, a short watch
 // interval and retry interval. After every change the driver waits (in apply cycles, not in wall
@@ -383,7 +383,7 @@ func runWatch(t *testing.T, tr *vt.Tracer, base string, caseID int, c vt.Case) {
 	rl := reloader.New(nil, reg, &reloader.Options{
 		ReloadURL: u, CfgFile: w.cfgIn, CfgOutputFile: w.cfgOut,
 		CfgDirs:     []reloader.CfgDirOption{{Dir: w.dirIn[0], OutputDir: w.dirOut[0]}, {Dir: w.dirIn[1], OutputDir: w.dirOut[1]}},
-		WatchedDirs: []string{w.watIn}, WatchInterval: 100 * time.Millisecond, RetryInterval: 10 * time.Millisecond, DelayInterval: 5 * time.Millisecond,
+		WatchedDirs: []string{w.watIn}, WatchInterval: 250 * time.Millisecond, RetryInterval: 10 * time.Millisecond, DelayInterval: 5 * time.Millisecond,
 	})
 	ctx, cancel := context.WithCancel(context.Background())
 	done := make(chan error, 1)
@@ -392,16 +392,23 @@ func runWatch(t *testing.T, tr *vt.Tracer, base string, caseID int, c vt.Case) {
 
 	tr.Emit(vt.Event{"ev": "case", "case": caseID, "in": c, "kf": ""})
 	// waitCycles waits until n further apply cycles have started and the endpoint's failure budget is used up.
-	waitCycles := func(n float64) bool {
+	// With needOKs > 0 it also waits until the endpoint has answered 200 that many times in total: an
+	// apply cycle whose context (= the watch interval) expires on a slow machine before the reload request
+	// is sent retries in a later cycle, so "two cycles" alone would make the verdict depend on speed. A
+	// reloader that never reloads runs into the stall deadline and is judged then.
+	waitCycles := func(n float64, needOKs int) bool {
 		dl := time.Now().Add(stallDeadline)
 		c0 := applyCycles(reg)
 		for time.Now().Before(dl) {
 			ep.mu.Lock()
 			failing := ep.failNext > 0
+			// ... and that the last 200 was answered with the outputs as they are now (a reload requested
+			// from a half-done ConfigMap flip is followed by another one)
+			enough := needOKs == 0 || (ep.oks >= needOKs && ep.atok != nil && fmt.Sprint(vt.Normalize(vt.Case(ep.atok))) == fmt.Sprint(vt.Normalize(vt.Case(w.outs()))))
 			ep.mu.Unlock()
 			if failing {
 				c0 = applyCycles(reg)
-			} else if applyCycles(reg) >= c0+n {
+			} else if enough && applyCycles(reg) >= c0+n {
 				return true
 			}
 			select {
@@ -414,7 +421,7 @@ func runWatch(t *testing.T, tr *vt.Tracer, base string, caseID int, c vt.Case) {
 		return false
 	}
 	snapshot := func() map[string]any { return vt.Normalize(vt.Case(w.ins())) }
-	waitCycles(2) // initial sync
+	waitCycles(2, 0) // initial sync
 	last := fmt.Sprint(snapshot())
 	for _, x := range vt.List(c["steps"]) {
 		st := vt.Map(x)
@@ -424,7 +431,7 @@ func runWatch(t *testing.T, tr *vt.Tracer, base string, caseID int, c vt.Case) {
 		calls0, oks0 := ep.calls, ep.oks
 		ep.mu.Unlock()
 		if op == "idle" {
-			ok := waitCycles(2)
+			ok := waitCycles(2, 0)
 			ep.mu.Lock()
 			tr.Emit(vt.Event{"ev": "WIdle", "case": caseID, "calls": ep.calls - calls0, "waited": ok})
 			ep.mu.Unlock()
@@ -451,8 +458,12 @@ func runWatch(t *testing.T, tr *vt.Tracer, base string, caseID int, c vt.Case) {
 			t.Fatalf("unknown watch op %q", op)
 		}
 		tr.Emit(vt.Event{"ev": "WChange", "case": caseID, "op": op, "f": vt.Str(st["f"]), "c": vt.Str(st["c"])})
-		settled := waitCycles(2)
 		now := fmt.Sprint(snapshot())
+		need := 0
+		if now != last {
+			need = oks0 + 1 // a changed content must eventually be reloaded successfully
+		}
+		settled := waitCycles(2, need)
 		ep.mu.Lock()
 		atok := ep.atok
 		if atok == nil || ep.oks == oks0 {
@@ -462,6 +473,9 @@ func runWatch(t *testing.T, tr *vt.Tracer, base string, caseID int, c vt.Case) {
 			"ins": w.ins(), "env": env, "outs": w.outs(), "atok": atok, "waited": settled})
 		ep.mu.Unlock()
 		last = now
+		if !settled {
+			return // stalled: the observation is recorded; further steps would only stall again
+		}
 	}
 }
 
